@@ -350,9 +350,9 @@ def run(ctx: Ctx) -> int:
     #      PriorityProcessor, a sample into a real System): what runs after the last module does not depend on how it got there
     from .. import postproccheck
     if ctx.quick:
-        ctx.extra["postproc"] = postproccheck.run(ctx, 4, [0, 100, 200], [0, 1, 300], 7)
+        ctx.extra["postproc"] = postproccheck.run(ctx, 4, [0, 200, 300], [0, 1, 300], 7)
     else:
-        ctx.extra["postproc"] = postproccheck.run(ctx, 5, [0, 50, 100, 200], [0, 1, 300], 11)
+        ctx.extra["postproc"] = postproccheck.run(ctx, 5, [0, 50, 200, 300], [0, 1, 300], 11)
     # ---- negative control: the comparison notices a changed base
     any_cls = next((r for r in results if any(v["cls"] == "Class" and v["bases"] and v["bases"][0] for v in r["real"]["dump"].values())), None)
     if any_cls is None:
